@@ -96,7 +96,7 @@ def gen_case(rng):
 def run(res):
     vh, exe = P.base(res, PROP)
     rng = random.Random(res.seed)
-    cases = [gen_case(rng) for _ in range(3000 if res.tier == "quick" else 60000)]
+    cases = [gen_case(rng) for _ in range(3000 if res.tier == "quick" else 300000)]
     # every width x every boundary value, alone, in both segments
     for d, w in WIDTH.items():
         for v in bound_values(w):
